@@ -127,6 +127,15 @@ def mixed_tuple_unions():
         lambda l: ["Union", l])
 
 
+def container_class_unions():
+    """Union[C[Union[classes]], C[base]]: members that become equal once an inner union collapses to its base"""
+    cls = st.sampled_from([["cls", c] for c in ("D1", "D2", "DD", "Base", "Mixed")])
+    inner = st.lists(cls, min_size=2, max_size=3, unique_by=repr).map(lambda l: ["Union", l])
+    wrap = st.sampled_from(["List", "Set", "Iterator"])
+    return st.tuples(wrap, inner, st.sampled_from([["cls", "Base"], ["cls", "D1"]]), st.booleans()).map(
+        lambda p: ["Union", [[p[0], p[1]], [p[0], p[2]]] + ([["atom", "None"]] if p[3] else [])])
+
+
 def class_unions():
     return st.lists(st.sampled_from([["cls", c] for c in CLASSES] + [["atom", "int"], ["atom", "bool"], ["atom", "None"]]),
                     min_size=2, max_size=8, unique_by=repr).map(lambda l: ["Union", l])
@@ -139,7 +148,7 @@ def dict_unions():
 
 
 def focused():
-    return st.one_of(tuple_unions(), mixed_tuple_unions(), class_unions(), dict_unions())
+    return st.one_of(tuple_unions(), mixed_tuple_unions(), class_unions(), container_class_unions(), dict_unions())
 
 
 # ---- exhaustive enumeration -------------------------------------------------------------------
